@@ -47,8 +47,9 @@ class Expect:
 
 
 class UserSpec:
-    def __init__(self, login, password=None, home="/", perms=None):
+    def __init__(self, login, password=None, home="/", perms=None, maxconn=None):
         self.login, self.password, self.home = login, password, home
+        self.maxconn = maxconn          # a single session never exhausts it: the model ignores it
         self.perms = perms or []      # list of (path, readable, writable)
 
     def perm(self, path):
@@ -145,6 +146,7 @@ class SessionModel:
     def do_user(self, arg):
         u = self.lookup_user(arg)
         self.user, self.logged = None, False
+        self.rename_from = None          # a pending rename belongs to the login that issued it
         if u is None:
             return Expect(["530"])
         self.user = u
@@ -332,7 +334,9 @@ class SessionModel:
             return Expect(["150", "425"])
         self.data = False
         names = {posixpath.basename(c) for c in self.children(p)} if self.is_dir(p) else set()
-        return Expect(["150", done], names=names)
+        e = Expect(["150", done], names=names)
+        e.list_path = p
+        return e
 
     def do_list(self, arg):
         return self._listing("list", arg, "226")
